@@ -329,7 +329,10 @@ fn main() {
             let game: Game = format!("th{}", args[3].trim_start_matches("th")).parse().ok().expect("game");
             std::fs::write(work_dir("c18").join("c18.map"), mapfile(fam)).unwrap();
             let text = std::fs::read_to_string(&args[4]).expect("source");
-            run_program(fam, game, &text, "replay", &mut stats);
+            // one set of scratch files per input: the comparison script reads them after all inputs ran
+            let stem: String = std::path::Path::new(&args[4]).file_stem().map(|x| x.to_string_lossy().to_string()).unwrap_or_default()
+                .chars().map(|c| if c.is_ascii_alphanumeric() { c } else { '_' }).collect();
+            run_program(fam, game, &text, &format!("t_{}", stem), &mut stats);
         }
         _ => { eprintln!("usage: c18 gen <n> | text <family> <game> <file>"); std::process::exit(2); }
     }
